@@ -184,3 +184,80 @@ def _check_bundle_event(devs, view, docs, reads, name):
     if dkeys != ekeys or not {kk for kk, _ in ev[4]} <= {x[0] for x in de[4]}:
         return "descriptor data keys %s do not match event keys %s" % (sorted(dkeys), sorted(ekeys))
     return None
+
+
+def c45(case, obs):
+    """Collected stream assets line up with the stream's numbering (see properties.jsonl C45)."""
+    view = View()
+    cnt = {}                  # stream name -> next seq_num (absent = unknown)
+    seen_names = set()
+    idx_end = {}              # stream resource uid -> stop index of its last datum
+    std = case.get("kind") == "cadence"
+    for i, (op, o) in enumerate(zip(case["ops"], obs)):
+        k, docs, res = op[0], o["docs"], o["res"]
+        where = "op %d %s: " % (i, k)
+        if k in ("rewind", "open_run"):
+            cnt.clear()
+        if k == "open_run":
+            seen_names.clear()
+        if k == "collect":
+            gets = [c for c in o["calls"] if c[0] == "get_index"]
+            asks = [c for c in o["calls"] if c[0] == "collect_asset_docs"]
+            if len(op[1]) > 1 and asks:
+                m = min(x[1] for x in op[1])
+                if len(gets) != len(op[1]) or any(c[2] != m for c in asks):
+                    return where + "detectors collected together were not all asked for the minimum index %d: %s" % (m, asks)
+            datums = [d for d in docs if d[0] == "sdatum"]
+            widths = [d[5] - d[4] for d in datums]
+            nz = sorted(set(w for w in widths if w != 0))
+            if res == "ok":
+                if any(d[0] not in ("sres", "sdatum", "res", "datum") for d in docs):
+                    return where + "collect emitted a non-asset document"
+                if len(nz) > 1:
+                    return where + "stream datums of different widths %s accepted in one collect" % nz
+                if datums:
+                    nm = view.name_of(datums[0][3])
+                    if nm is None or any(view.name_of(d[3]) != nm for d in datums):
+                        return where + "stream datum without (one) emitted descriptor"
+                    latest = [u for u in view.order if view.descr[u][3] == nm][-1]
+                    if any(tuple(d[3]) != latest for d in datums):
+                        return where + "stream datum does not reference the stream's current descriptor"
+                    for d in datums:
+                        if d[7] - d[6] != d[5] - d[4]:
+                            return where + "seq_nums width differs from indices width: %s" % (d,)
+                        if nm in cnt and d[6] != cnt[nm]:
+                            return where + "seq_nums start at %d, stream %d is at %d" % (d[6], nm, cnt[nm])
+                        if std:
+                            r = tuple(d[2])
+                            if d[4] != idx_end.get(r, 0):
+                                return where + "indices of %s start at %d, previous datum ended at %d" % (r, d[4], idx_end.get(r, 0))
+                            idx_end[r] = d[5]
+                    if nm in cnt:
+                        cnt[nm] += widths[-1]
+                    if len(set(d[6] for d in datums)) != 1:
+                        return where + "stream datums of one collect start at different seq_nums"
+            else:
+                for d in datums:
+                    cnt.pop(view.name_of(d[3]), None)
+                if std:
+                    return where + "collect of well-behaved detectors failed: %s" % res
+        for d in docs:
+            view.see(d)
+            if d[0] == "descriptor":
+                if d[3] not in seen_names:
+                    cnt[d[3]] = 1
+                seen_names.add(d[3])
+            elif d[0] == "event":
+                nm = view.name_of(d[2])
+                if nm in cnt:
+                    if d[3] != cnt[nm]:
+                        return where + "event seq_num %d, stream %d is at %d" % (d[3], nm, cnt[nm])
+                    cnt[nm] += 1
+            elif d[0] == "sdatum" and k != "collect":
+                cnt.pop(view.name_of(d[3]), None)       # save() with stream assets: covered by its event
+            elif d[0] == "stop":
+                ne = dict((a, b) for a, b in d[5])
+                for nm, c in cnt.items():
+                    if ne.get(nm) != c - 1:
+                        return where + "num_events[%d] = %s, %d frames/events were numbered" % (nm, ne.get(nm), c - 1)
+    return None
